@@ -338,7 +338,8 @@ func (c *Ctx) sremoveContract() {
 		c.R.Unresolved("topics.snode.sremove")
 		return
 	}
-	fn = leafHost(fn, func(f *ssa.Function) bool {
+	// the function itself (it clears both lists for a nil subscriber) and the helpers of the node it removes through
+	storesLists := func(f *ssa.Function) bool {
 		for _, b := range f.Blocks {
 			for _, in := range b.Instrs {
 				if st, ok := in.(*ssa.Store); ok {
@@ -349,7 +350,21 @@ func (c *Ctx) sremoveContract() {
 			}
 		}
 		return false
-	})
+	}
+	hosts := []*ssa.Function{fn}
+	for _, call := range ir.Calls(fn) {
+		h := call.Common().StaticCallee()
+		if h == nil || h == fn || h.Blocks == nil || recvNamed(h) != recvNamed(fn) || !storesLists(h) {
+			continue
+		}
+		dup := false
+		for _, x := range hosts {
+			dup = dup || x == h
+		}
+		if !dup {
+			hosts = append(hosts, h)
+		}
+	}
 	pos := c.P.Pos(fn.Pos())
 	type rem struct {
 		field string
@@ -357,7 +372,11 @@ func (c *Ctx) sremoveContract() {
 		block *ssa.BasicBlock
 	}
 	var rems []rem
-	for _, b := range fn.Blocks {
+	var allBlocks []*ssa.BasicBlock
+	for _, h := range hosts {
+		allBlocks = append(allBlocks, h.Blocks...)
+	}
+	for _, b := range allBlocks {
 		for _, in := range b.Instrs {
 			st, ok := in.(*ssa.Store)
 			if !ok {
